@@ -326,6 +326,8 @@ func (r *c03Run) checkSV(i int, what string) {
 }
 
 func simC03Sets(c *Ctx) {
+	hugeNumbers = true
+	defer func() { hugeNumbers = false }()
 	r := &c03Run{c: c, byFP: map[string]int{}, orders: map[string]string{}, ordersBy: map[string]string{}}
 	r.ety = c03ElemTypes[c.G(len(c03ElemTypes))]
 	r.capsule = r.ety.HasCapsule()
